@@ -37,6 +37,53 @@ start :: fn do
 end
 '''
 CLOSURES = [
+# top-level functions are closures over the module's variables: all of them share ONE variable, wherever it is declared and however they write it
+("module_variable_shared_by_top_level_functions", '''
+set_it :: fn v: int do
+    counter = v
+end
+bump :: fn do
+    counter += 1
+end
+get_it :: fn -> int do
+    ret counter
+end
+counter := 0
+swap_in :: fn v: int -> int do
+    old :: counter
+    counter = v
+    ret old
+end
+start :: fn do
+    set_it(?m)
+    print(get_it())
+    bump()
+    print(counter)
+    print(swap_in(7))
+    print(get_it())
+    set_it(?m + 2)
+    print(counter)
+end
+''', {"m": (0, 3)}),
+("module_variable_overwritten_by_a_nested_closure", '''
+install :: fn -> fn int -> void do
+    ret fn v: int do
+        slot = (v, v + 1)
+    end
+end
+peek :: fn -> int do
+    ret slot[0] + slot[1]
+end
+slot := (0, 0)
+start :: fn do
+    w :: install()
+    w(?m)
+    print(peek())
+    print(slot)
+    slot = (5, 5)
+    print(peek())
+end
+''', {"m": (0, 3)}),
 ("closure_per_iteration_and_recursion", '''
 mk :: fn n: int, acc: [fn -> int] -> void do
     if n < 1 do ret end
